@@ -208,6 +208,26 @@ def _pipeline_case(args):
             if a != b:
                 issues.append(('runner:query-markers', f'query-marker runner and stage function disagree on '
                                                        f'{[k for k in set(a) | set(b) if a.get(k) != b.get(k)][:5]}'))
+            # ---- the p-value-mask route: two runners against the two stage functions
+            from cell_type_mapper.cli.compute_p_value_mask import PValueRunner
+            from cell_type_mapper.cli.reference_markers_from_p_value_mask import PValueMarkersRunner
+            stages.p_value_mask(tp['stats'], str(d / 'mask_fn.h5'), str(d / 'scratch'), n_proc=P, n_per=3)
+            stages.markers_from_p_mask(tp['stats'], str(d / 'mask_fn.h5'), str(d / 'refm_mask_fn.h5'), str(d / 'scratch'),
+                                       n_proc=P, max_gb=1, n_valid=3)
+            PValueRunner(args=[], input_data={'precomputed_stats_path': tp['stats'], 'output_path': str(d / 'cli' / 'mask.h5'),
+                                              'n_processors': P, 'tmp_dir': str(d / 'scratch'), 'rows_at_a_time': 3}).run()
+            PValueMarkersRunner(args=[], input_data={
+                'precomputed_stats_path': tp['stats'], 'p_value_mask_path': str(d / 'cli' / 'mask.h5'),
+                'output_path': str(d / 'cli' / 'refm_mask.h5'), 'n_processors': P, 'tmp_dir': str(d / 'scratch'),
+                'max_gb': 1, 'n_valid': 3, 'query_path': None}).run()
+            for a_, b_, what in ((d / 'mask_fn.h5', d / 'cli' / 'mask.h5', 'p-value mask'),
+                                 (d / 'refm_mask_fn.h5', d / 'cli' / 'refm_mask.h5', 'markers from the p-value mask')):
+                df = _h5_equal(a_, b_)
+                if df:
+                    issues.append(('runner:p-mask', f'{what}: runner and stage function disagree on {df}'))
+            with h5py.File(d / 'cli' / 'refm_mask.h5', 'r') as f:
+                if json.loads(f['metadata'][()].decode()).get('precomputed_path') != tp['stats']:
+                    issues.append(('runner:p-mask', 'markers from the p-value mask do not name their statistics file'))
             # ---- on-the-fly against the three runners one by one, and with faults
             query = ref['path']
             ta = {'normalization': 'raw', 'bootstrap_iteration': prng.randint(3, 12), 'bootstrap_factor': prng.choice([0.5, 0.7, 0.9]),
